@@ -138,7 +138,7 @@ def ref_diagonal_values(op: Any) -> np.ndarray:
     if type(op).__name__ == 'DiagonalInverseOperator':
         v = ref_diagonal_values(op.operator)
     else:
-        v = np.asarray(P(op, 'diagonal', '_diagonal'), dtype=np.float64)
+        v = _wide(P(op, 'diagonal', '_diagonal'))
     if type(op).__name__ == 'DiagonalInverseOperator':
         with np.errstate(divide='ignore'):
             v = np.where(v != 0, 1.0 / np.where(v != 0, v, 1.0), 0.0)
@@ -174,7 +174,7 @@ def ref_dense(op: Any, x: Any) -> list[np.ndarray]:
     xs = np_leaves(x)
     blocks, subs = P(op, 'blocks'), P(op, 'subscripts').replace(' ', '')
     if is_leaf(blocks):
-        b = np.asarray(blocks, dtype=np.float64)
+        b = _wide(blocks)
         return [np.einsum(subs, b, l) for l in xs]
     bs = np_leaves(blocks)
     return [np.einsum(subs, b, l) for b, l in zip(bs, xs)]
@@ -191,13 +191,13 @@ def toeplitz_matrix(n: int, band: np.ndarray) -> np.ndarray:
 
 
 def ref_toeplitz(op: Any, x: Any) -> list[np.ndarray]:
-    xl = np.asarray(x, dtype=np.float64)
-    band = np.asarray(P(op, 'band_values'), dtype=np.float64)
+    xl = _wide(x)
+    band = _wide(P(op, 'band_values'))
     n = xl.shape[-1]
     batch = np.broadcast_shapes(xl.shape[:-1], band.shape[:-1])
     xb = np.broadcast_to(xl, batch + (n,))
     bb = np.broadcast_to(band, batch + (band.shape[-1],))
-    out = np.empty(batch + (n,))
+    out = np.empty(batch + (n,), dtype=np.result_type(xb, bb))
     for idx in np.ndindex(*batch):
         out[idx] = toeplitz_matrix(n, bb[idx]) @ xb[idx]
     return [out]
@@ -249,7 +249,7 @@ def ref_identity(op: Any, x: Any) -> list[np.ndarray]:
 
 
 def ref_homothety(op: Any, x: Any) -> list[np.ndarray]:
-    k = float(np.asarray(P(op, 'value')))
+    k = complex(np.asarray(P(op, 'value'))) if np.iscomplexobj(np.asarray(P(op, 'value'))) else float(np.asarray(P(op, 'value')))
     return [k * l for l in np_leaves(x)]
 
 
